@@ -18,12 +18,18 @@ def gen_tree(rng):
         if level < 3:
             for _ in range(rng.randrange(0, 3)):
                 k = rng.random()
-                if k < 0.65:
+                if k < 0.06:
+                    # an include while an ADDR segment is active: the included text is read in that segment (its `@db N`
+                    # is then not a statement), as it would be had it been written in place
+                    lines.append(('include_addr', rng.choice(NAMES)))
+                elif k < 0.65:
                     lines.append(('include', rng.choice(NAMES)))
                 elif k < 0.85:
                     lines.append(('incbin', rng.choice(["d.bin", "sub/d.bin"])))
-                else:
+                elif k < 0.93:
                     lines.append(('each', ''))     # a macro-like expansion inside the file (pushes and pops token sources)
+                else:
+                    lines.append(('emptymac', ''))  # ... and an invocation of a macro whose body is empty (the root defines two)
         files[path] = ('src', i, lines, level)
     for d in DIRS:
         for n in ["a.inc", "b.inc", "c.inc"]:
@@ -73,11 +79,11 @@ def expand(files, path, paths, depth=0, seen=None):
     out = bytearray([ident])
     cur = os.path.dirname(path)
     for d, name in lines:
-        if d == 'each':
+        if d in ('each', 'emptymac'):
             continue
         p = resolve(files, cur, paths, name)
-        if p is None:
-            raise Missing
+        if p is None or d == 'include_addr':
+            raise Missing            # not found, or found and read inside the ADDR segment: `@db <number>` is rejected there
         if d == 'include':
             if files[p][0] != 'src':
                 raise Missing
@@ -92,12 +98,18 @@ def source_text(f):
     kind, ident, lines, _ = f
     # the root opens the only scope; every file defines a local label before any global of its own and after each of
     # its directives: inclusion is textual, so all of them belong to the root's global label
-    t = (["Root0:"] if ident == 0xAA else []) + ["@db %d" % ident, ".f%d:" % ident]
+    t = (["@macro emq0, 0\n@endmacro\n@macro emq1, 1, pq\n@endmacro", "Root0:"] if ident == 0xAA else []) + ["@db %d" % ident, ".f%d:" % ident]
     for j, (d, name) in enumerate(lines):
         if d == 'each':
             t.append("@each zq%d_%d, { 1 2 3 }\n@endeach\n@db @string { \"\" }" % (ident, j))
             continue
+        if d == 'emptymac':
+            t.append("emq0" if (ident + j) % 2 else "emq1 { 5 }")
+            continue
         # either case of the directive (chosen from the file's identity, so that the text is a function of the tree)
+        if d == 'include_addr':
+            t.append('@segment "ADDR"\n@include "%s"\n@segment "CODE"' % name)
+            continue
         t.append('@%s "%s"' % (d.upper() if (ident + j) % 3 == 0 else d, name))
         t.append("@db $fe")
         t.append(".a%d_%d: @dw 0 - ( .f%d - .f%d )" % (ident, j, ident, ident))
